@@ -416,7 +416,7 @@ func newBPRequester(pool *BlockPool, height int64) *bpRequester {
 	bpr := &bpRequester{
 		pool:       pool,
 		height:     height,
-		gotBlockCh: make(chan struct{}),
+		gotBlockCh: make(chan struct{}, 1),
 		redoCh:     make(chan struct{}),
 
 		peerID: "",
@@ -442,7 +442,12 @@ func (bpr *bpRequester) setBlock(block *types.Block, peerID string) bool {
 	bpr.block = block
 	bpr.mtx.Unlock()
 
-	bpr.gotBlockCh <- struct{}{}
+	// Never wait for the requester here: the caller holds the pool lock, and the requester may
+	// still be sending its request (the response can precede it).
+	select {
+	case bpr.gotBlockCh <- struct{}{}:
+	default:
+	}
 	return true
 }
 
